@@ -749,6 +749,9 @@ func errorOriginKey(v ssa.Value, depth int) string {
 				return "\"" + s + "\""
 			}
 		}
+		if sc := x.Call.StaticCallee(); sc != nil {
+			return cshort(sc)
+		}
 		return ci.Name
 	case *ssa.Extract:
 		return errorOriginKey(x.Tuple, depth)
